@@ -36,6 +36,7 @@ RULE = (
     ' Round 7: cases also run with the library at DEBUG; use after a failed connect must raise a transport error.'
     ' Round 8: `cancel_read k`; read-side EOF followed by a write on the open connection.'
     ' Round 9: the in-memory transport keeps the written objects by reference; EAGAIN/EINTR/ENOSPC/... among link errors.'
+    ' Round 10: the in-memory connection counts queued objects discarded by abort(); disconnect of a healthy connection may not discard written lines.'
 )
 ASSUMPTIONS = [
     "asyncio.StreamReader.readuntil semantics for over-long lines (data stays in the reader) are trusted; no recovery is demanded after them",
